@@ -6,6 +6,7 @@ mod arith_test;
 mod c01;
 mod c03;
 mod c04;
+mod c08;
 mod c15;
 mod dec;
 mod c17;
@@ -141,6 +142,7 @@ fn main() {
         "c04" => c04::run_c04(&mut ctx, replay_lines.as_deref()),
         "c05" => c04::run_c05(&mut ctx, replay_lines.as_deref()),
         "c03" => c03::run(&mut ctx, replay_lines.as_deref()),
+        "c08" => c08::run(&mut ctx, replay_lines.as_deref()),
         "c15" => c15::run(&mut ctx, replay_lines.as_deref()),
         "c17" => c17::run(&mut ctx, replay_lines.as_deref()),
         _ => {
